@@ -166,7 +166,11 @@ func shuffle(r *vrng, xs []string) {
 func genMatcher(r *vrng, depth int, exclude map[string]bool) cleaf {
 	for {
 		var l cleaf
-		switch r.intn(14) {
+		pick := r.intn(16)
+		if pick >= 14 {
+			pick = 8 // the tls matcher (nested sub-matchers with their own grammar) is drawn more often
+		}
+		switch pick {
 		case 0:
 			l = cleaf{name: "ssh", lines: []string{"ssh"}, json: map[string]any{}}
 		case 1:
@@ -245,12 +249,22 @@ func genMatcher(r *vrng, depth int, exclude map[string]bool) cleaf {
 					}
 					line := nm
 					var rs, nrs []any
+					private := []any{"192.168.0.0/16", "172.16.0.0/12", "10.0.0.0/8", "127.0.0.1/8", "fd00::/8", "::1"}
 					for k := 1 + r.intn(3); k > 0; k-- {
 						c := cidr(r)
-						if nm == "remote_ip" && r.intn(2) == 0 {
+						switch {
+						case r.intn(3) == 0: // the documented shortcut for the private networks, plain or (remote_ip) negated
+							if nm == "remote_ip" && r.intn(2) == 0 {
+								line += " !private_ranges"
+								nrs = append(nrs, private...)
+							} else {
+								line += " private_ranges"
+								rs = append(rs, private...)
+							}
+						case nm == "remote_ip" && r.intn(2) == 0:
 							line += " !" + c
 							nrs = append(nrs, c)
-						} else {
+						default:
 							line += " " + c
 							rs = append(rs, c)
 						}
